@@ -2,7 +2,7 @@
    Statements only; proofs are in Proofs/Admission.v and Proofs/OneActive.v.  The rules are written over public
    state ([start_rule], [node_active_now], ...); both directions where proved. *)
 From Hub Require Import Base.Prelude Base.Arith Model.Types Model.Keeper Model.Handlers Model.Hooks Model.Step.
-From Hub Require Import Proofs.Tactics Proofs.Frames Proofs.KeysInv Proofs.Admission Proofs.IndexSess Proofs.OneActive.
+From Hub Require Import Proofs.Tactics Proofs.Frames Proofs.KeysInv Proofs.Admission Proofs.IndexSess Proofs.OneActive Proofs.RangeDefs Proofs.AdmissionConv.
 
 (* A session can only be started on an active subscription, on an active node that the subscription
    covers (its own node — and then only by the subscriber — or a node linked to the plan and currently
@@ -71,9 +71,31 @@ Proof. exact one_active_session. Qed.
 Theorem C08_one_active_invariant : forall s o s', kinv s -> idx_sess s -> one_act s -> step s o = OOk s' -> one_act s'.
 Proof. exact one_act_step. Qed.
 
-(* Not proved here: the converse directions for the purchases (they additionally need sufficient
-   funds, an unblocked recipient and arithmetic in range — the C03 range invariant); the
-   implementation-side monitor evaluates every rule on the pre-state of every admission message. *)
+(* Conversely, a purchase that meets the admission rules and can be paid for IS accepted: an active node that
+   quotes the denomination, a quantity within the governance limits, a balance covering price x quantity, and
+   amounts below the supply bound (so that the checked 256-/315-bit arithmetic of the SDK cannot fail) ... *)
+Theorem C08_gigabyte_purchase_accepted : forall s from nd g dn n price,
+  get_node s (ta_bytes nd) = Some n -> nd_status n = SActive ->
+  0 < g -> valid_sub_gb s g = true -> nd_gb_prices n !! dn = Some price ->
+  0 <= price -> price * g <= bal s (ta_bytes from) dn -> price * g < BIG -> GB * g < MAXINT ->
+  exists s', h_node_subscribe s from nd g 0 dn = Ok s'.
+Proof. exact node_subscribe_gb_complete. Qed.
+
+Theorem C08_hourly_purchase_accepted : forall s from nd h dn n price,
+  get_node s (ta_bytes nd) = Some n -> nd_status n = SActive ->
+  0 < h -> valid_sub_hr s h = true -> nd_hr_prices n !! dn = Some price ->
+  0 <= price -> price * h <= bal s (ta_bytes from) dn -> price * h < MAXINT ->
+  exists s', h_node_subscribe s from nd 0 h dn = Ok s'.
+Proof. exact node_subscribe_hr_complete. Qed.
+
+(* ... and likewise an active plan that quotes the denomination, bought by an account (not the fee collector
+   itself) that holds the price. *)
+Theorem C08_plan_purchase_accepted : forall s from pid dn p price,
+  get_plan s pid = Some p -> pl_status p = SActive -> pl_prices p !! dn = Some price ->
+  0 <= p_prov_share (pars s) <= P18 -> 0 <= price < BIG -> price <= bal s (ta_bytes from) dn ->
+  ta_bytes from <> c_feecoll (cfg s) -> 0 <= pl_gb p -> GB * pl_gb p < MAXINT ->
+  exists s', h_plan_subscribe s from pid dn = Ok s'.
+Proof. exact plan_subscribe_complete. Qed.
 
 Print Assumptions C08_start_accepted_implies_rule.
 Print Assumptions C08_rule_implies_start_accepted.
@@ -88,3 +110,6 @@ Print Assumptions C08_link_needs_node.
 Print Assumptions C08_link_accepted.
 Print Assumptions C08_one_active_session.
 Print Assumptions C08_one_active_invariant.
+Print Assumptions C08_gigabyte_purchase_accepted.
+Print Assumptions C08_hourly_purchase_accepted.
+Print Assumptions C08_plan_purchase_accepted.
